@@ -110,8 +110,18 @@ func LayerConvertFunc(opts ...estargz.Option) converter.ConvertFunc {
 
 		// update diffID label
 		labelz[labels.LabelUncompressed] = blob.DiffID().String()
-		if err = w.Commit(ctx, n, "", content.WithLabels(labelz)); err != nil && !errdefs.IsAlreadyExists(err) {
-			return nil, err
+		if err = w.Commit(ctx, n, "", content.WithLabels(labelz)); err != nil {
+			if !errdefs.IsAlreadyExists(err) {
+				return nil, err
+			}
+			// The same blob already exists (e.g. the source already was such a layer) and
+			// Commit didn't touch its labels: record the diffID on the existing blob.
+			if _, err := cs.Update(ctx, content.Info{
+				Digest: w.Digest(),
+				Labels: map[string]string{labels.LabelUncompressed: labelz[labels.LabelUncompressed]},
+			}, "labels."+labels.LabelUncompressed); err != nil {
+				return nil, err
+			}
 		}
 		if err := w.Close(); err != nil {
 			return nil, err
